@@ -12,7 +12,6 @@ CLAIMED = {
             "builds NodeNot of exactly the node of `x is P` (is_not_is_negation). Precedence/associativity/chain desugaring live in the parser model "
             "(fuel-free, compared AST-for-AST with the implementation in C01). Tied to the code by random expression trees to depth 5, all ordered "
             "operator pairs, expected ASTs computed from the precedence rules, values recomputed with exact int/Fraction arithmetic.",
-            "No theorem `parse (pretty e) = e` yet: precedence is pinned by the expected-AST oracle and the parser correspondence, not by proof. "
             "Decimal arithmetic uses machine doubles on both sides (no theorem about float arithmetic)."),
     "C03": ("6/C03", "Theorems (Lean 4, evaluator model): environment algebra (lookup_put_same/other, set_updates_nearest, set_undefined_none: assignment "
             "never creates a binding, newEnv_fresh); a closure call runs in a fresh child of the CAPTURED frame and is independent of the caller's frame "
@@ -177,6 +176,36 @@ CLAIMED = {
 PENDING = {}
 
 
+# theorem families added after the first complete pass (DESIGN.md section 0)
+ADDENDA = {
+    "C02": " The precedence theorem is now proved (C02Parse): for expression trees of any depth over or/and/not, comparison chains, + - * / %, unary minus "
+           "and parentheses, EVERY token list spelled by the minimal-parentheses printer parses to the prescribed AST modulo positions "
+           "(parse_render_tokens), redundant parentheses change nothing (parse_render_parens), with the corollaries sub_left_assoc, add_mul_prec, "
+           "or_and_prec, not_eq_prec, neg_mul_prec, cmp_chain, or_flat. The operator tables and the call shape of the expression tower are REGENERATED "
+           "from parser.py on every run and proved equal to the model's (C02GenSyntax: add_mul_tables_agree, relops_agree, tower_agree, ...).",
+    "C03": " The parameter names of the modelled built-ins are proved equal to the getArgNames table REGENERATED from functions.py on every run (C03Gen).",
+    "C09": " At the level of the evaluator model (C09Eval): NoEff (flag set, no effectful built-in value anywhere in frames or heap) is preserved by every "
+           "evaluator function and by whole sessions (eval_preserves_noEff), no evaluator step writes the flag (secure_flag_constant), and secure-mode "
+           "evaluation is independent of what the effectful built-ins would do (eval_indep_effectful: non-interference form of unreachability).",
+    "C10": " The `for` statement restores a variable hidden by its loop variable (for_cleanup_on_error, hiddenVars_spec; defect D24 repaired).",
+    "C11": " `require` binds exactly the requested names (C11Bind): require_plain_binds_exactly, module_object_members, require_import_binds_exactly, "
+           "require_unqualified_binds_exactly, module_scope_isolated, require_failure_binds_nothing, shared_instance, on top of the evaluator-wide "
+           "invariant frames_extend.",
+    "C13": " The driver's interpretation of 26 further built-ins (Driver/NativeSem.lean) is proved pure and therefore meets every hypothesis the flagship "
+           "theorems put on the unmodelled built-ins (DriverNatives: driverNativeSem_pure, no_host_of_pure, nativeBalanced_of_pure, ...); it is compared "
+           "with the implementation on argument sweeps.",
+    "C14": " Literal spelling (C14Spell): decimal / hex / binary / underscored ints, single- vs double-quoted strings, != vs <> parse to the same literal / "
+           "call (parseScript_int_spellings, quote_styles_scan, parse_ne_spelling), optional trailing semicolon and redundant parentheses for stable "
+           "expression statements. The parser uses positions only by copying them (C14Parse: production_equivariant for all 49 productions, "
+           "parse_pos_irrelevant, parse_layout_irrelevant from source text). Scanner tables REGENERATED from lexer.py on every run are proved equal to the "
+           "model's (C14Gen: number_classes_agree, transitions_agree, string_twins_agree, ...).",
+    "C17": " date - date on exact millisecond stamps: (d + k) - d = k for dates with a time of day (diffDays_addDays), antisymmetry, truncation spec.",
+    "C20": " Evaluator level (C20Eval): per construct the error carries the failing node's own position, errors propagate unchanged, a failing call adds "
+           "exactly one trace entry with the call node's position, and every position in an outcome comes from an AST (error_pos_from_ast, "
+           "value_pos_from_ast). Parser level (C14Parse): positions_from_tokens.",
+}
+
+
 def main():
     props = [json.loads(l) for l in open(os.path.join(VERIF, "properties.jsonl"))]
     checks = []
@@ -185,6 +214,7 @@ def main():
         pid = p["id"]
         if pid in CLAIMED:
             ref, text, note = CLAIMED[pid]
+            text = text + ADDENDA.get(pid, "")
             checks.append({
                 "property_id": pid,
                 "quick_cmd": f"./check {pid} quick",
